@@ -18,6 +18,9 @@ def sh(cmd, cwd="/verif", env=ENV):
 def main():
     k, n = int(sys.argv[1]), int(sys.argv[2])
     names = sorted(os.path.basename(os.path.dirname(f)) for f in glob.glob("/verif/seeded/*/meta.json"))
+    if os.environ.get("SEED_ONLY"):  # JSON list of names to restrict the run to
+        only = set(json.load(open(os.environ["SEED_ONLY"])))
+        names = [x for x in names if x in only]
     names = [x for i, x in enumerate(names) if i % n == k]
     wt = f"/tmp/rg-{k}"
     sh(f"git -C /repo worktree remove --force {wt}")
